@@ -185,6 +185,14 @@ func TestC15(t *testing.T) {
 		}
 		c.Flags = rapid.SampledFrom([]int{core.FlagDefault, core.FlagDefault, core.FlagAll, core.FlagDefault | core.FlagNewer}).Draw(t, "faultflags")
 		c.Native = rapid.IntRange(0, 9).Draw(t, "native") == 0
+		if h.Pinned && rapid.IntRange(0, 2).Draw(t, "pinned-all") != 0 {
+			// pinned chain, everything re-issued with reused keys: an issuer that loses its key in the torn write is re-keyed
+			// by the repairing run, and what it signed before must be signed again
+			c.Flags = core.FlagAll
+			if n := len(c.Pre); n == 0 || c.Pre[n-1].Kind != "run" {
+				c.Pre = append(c.Pre, hOp{Kind: "run", Int: core.FlagDefault})
+			}
+		}
 		if n := len(c.Pre); n > 0 && c.Pre[n-1].Kind == "run" && c.Flags != core.FlagAll {
 			// make sure the faulted run has something to do: edit an entity at a random tier
 			e := h.Init.Ents[rapid.IntRange(0, len(h.Init.Ents)-1).Draw(t, "edited")]
